@@ -232,6 +232,7 @@ type Session struct {
 	usedCon map[string]bool
 	iterN  int
 	curSite string
+	curInstr ssa.Instruction
 	sweep  bool // zero-annotation mode: callees without contracts are havoc-all
 	rg     *rgInfo
 	maxPaths int
@@ -673,6 +674,14 @@ func (s *Session) copyStruct(st *State, t types.Type, dst, src Term) {
 			k, so := "F_"+typeKey(t)+"_$state", ArrSort(SInt, SInt)
 			a := s.H(st, k, so)
 			s.setH(st, k, so, Store(a, dst, Select(a, src)))
+			// exported scalar fields of external structs are read directly by the code (fsnotify.Event.Op, ...)
+			for i := 0; i < u.NumFields(); i++ {
+				if f := u.Field(i); f.Exported() && !isStructLike(f.Type()) {
+					fk, fso := fieldKey(t, i)
+					fa := s.H(st, fk, fso)
+					s.setH(st, fk, fso, Store(fa, dst, Select(fa, src)))
+				}
+			}
 			return
 		}
 		for i := 0; i < u.NumFields(); i++ {
